@@ -704,8 +704,9 @@ def _tree_key(t):
     for k, attr in (("nodes", "_tree_from_nodes"), ("faces", "_tree_from_face_centers"), ("edges", "_tree_from_edge_centers")):
         if getattr(t, attr, None) is not None:
             built.append(k)
-    kind = {"nodes": "nodes", "face centers": "faces", "edge centers": "edges"}.get(t._coordinates, str(t._coordinates))
-    return {"kind": kind, "sys": str(t.coordinate_system), "metric": str(t.distance_metric), "built": built, "id": id(t) % 100000}
+    co = getattr(t, "_coordinates", None)
+    kind = {"nodes": "nodes", "face centers": "faces", "edge centers": "edges"}.get(co, str(co))
+    return {"kind": kind, "sys": str(getattr(t, "coordinate_system", None)), "metric": str(getattr(t, "distance_metric", None)), "built": built, "id": id(t) % 100000}
 
 
 def _proj_name(p):
@@ -751,16 +752,21 @@ def project(grid, source=None, judge_vars=True, digests=None):
             elif digests is not None:
                 digests[name] = dg
     chunked = sorted(str(v) for v in ds.variables if hasattr(ds[v].data, "dask"))
-    gp, pp, lp = grid._gdf_cached_parameters, grid._poly_collection_cached_parameters, grid._line_collection_cached_parameters
+    # the cache slots are private and descriptive only (reported as drift, never judged): a tree that renames
+    # or moves them must not break the projection
+    _none = {"gdf": None, "poly_collection": None, "line_collection": None}
+    gp = getattr(grid, "_gdf_cached_parameters", None) or _none
+    pp = getattr(grid, "_poly_collection_cached_parameters", None) or _none
+    lp = getattr(grid, "_line_collection_cached_parameters", None) or _none
     st = {
         "store": store,
         "bad": sorted(bad),
-        "ball": _tree_key(grid._ball_tree),
-        "kd": _tree_key(grid._kd_tree),
-        "gdf": None if gp["gdf"] is None else {"pe": str(gp["periodic_elements"]), "proj": _proj_name(gp["projection"]), "eng": str(gp["engine"]), "id": id(gp["gdf"]) % 100000},
-        "poly": None if pp["poly_collection"] is None else {"pe": str(pp["periodic_elements"]), "proj": _proj_name(pp["projection"])},
-        "line": None if lp["line_collection"] is None else {"pe": str(lp["periodic_elements"]), "proj": _proj_name(lp["projection"]), "id": id(lp["line_collection"]) % 100000},
-        "am": grid._antimeridian_face_indices is not None,
+        "ball": _tree_key(getattr(grid, "_ball_tree", None)),
+        "kd": _tree_key(getattr(grid, "_kd_tree", None)),
+        "gdf": None if gp.get("gdf") is None else {"pe": str(gp["periodic_elements"]), "proj": _proj_name(gp["projection"]), "eng": str(gp["engine"]), "id": id(gp["gdf"]) % 100000},
+        "poly": None if pp.get("poly_collection") is None else {"pe": str(pp["periodic_elements"]), "proj": _proj_name(pp["projection"])},
+        "line": None if lp.get("line_collection") is None else {"pe": str(lp["periodic_elements"]), "proj": _proj_name(lp["projection"]), "id": id(lp["line_collection"]) % 100000},
+        "am": getattr(grid, "_antimeridian_face_indices", None) is not None,
         "jac": getattr(grid, "_face_jacobian", None) is not None,
         "chunked": chunked,
         "ds": id(ds) % 100000,
